@@ -76,9 +76,9 @@ theorem keysOf_upAx (E : Env) (nd : Node) :
 theorem enumeration_ok (E : Env) (senv : Spec.Env) (rs : Ress) (n : Nat) (hI : InvB E senv rs n) (nd : Node)
     (hF : Facts E nd) (hn : nd.name = n) :
     (cart (((sUps E nd).map fun p => rs.get p.2).map (·.indFinal) ++
-        (match ownOpt nd with | some (e, _) => [e] | none => []))).map flattenL
+        ownBlock (ownOpt nd))).map flattenL
       = rowMajor (sizesOf (E.axes n)) ∧
-    ((sUps E nd).map fun p => rs.get p.2).flatMap (·.keysFinal) ++ (match ownOpt nd with | some (_, k) => k | none => [])
+    ((sUps E nd).map fun p => rs.get p.2).flatMap (·.keysFinal) ++ ownKeyList (ownOpt nd)
       = keysOf (E.axes n) := by
   have hres := sUps_res E senv rs n hI nd hF hn
   have hax : E.axes n = upAx E nd ++ ownAx nd := hn ▸ axes_of_facts hF
@@ -99,9 +99,9 @@ theorem enumeration_ok (E : Env) (senv : Spec.Env) (rs : Ress) (n : Nat) (hI : I
   rw [hblocks, hkeys, hax, hfl]
   unfold ownOpt
   by_cases ho : ownAx nd = []
-  · simp only [ho, if_true, List.append_nil]
+  · simp only [ho, if_true, List.append_nil, ownBlock, ownKeyList]
     exact ⟨by rw [cart_rowMajor_blocks, sizesOf_upAx], by first | rfl | trivial⟩
-  · simp only [ho, if_false]
+  · simp only [ho, if_false, ownBlock, ownKeyList]
     constructor
     · have : ((sUps E nd).map fun p => sizesOf (E.axes p.2)).map rowMajor ++ [rowMajor (sizesOf (ownAx nd))]
           = (((sUps E nd).map fun p => sizesOf (E.axes p.2)) ++ [sizesOf (ownAx nd)]).map rowMajor := by simp
